@@ -682,7 +682,14 @@ impl Drop for CList {
     }
 }
 
+/// header pairs as a C caller can pass them: C strings cannot contain NUL, so NUL bytes are removed HERE, once, and both the C
+/// list and the native twin see the same text
 fn pairs(v: &Value, k: &str) -> Vec<(String, String)> {
+    pairs_raw(v, k).into_iter().map(|(n, v)| (n.replace('\0', ""), v.replace('\0', ""))).collect()
+}
+
+/// header pairs as Rust strings (may contain NUL): only for the Rust -> C conversion `hmap_new`
+fn pairs_raw(v: &Value, k: &str) -> Vec<(String, String)> {
     v.get(k)
         .and_then(|x| x.as_array())
         .map(|a| a.iter().filter_map(|p| Some((p.get(0)?.as_str()?.to_string(), p.get(1)?.as_str()?.to_string()))).collect())
@@ -888,8 +895,8 @@ fn execute(case: &Value, fill: bool) -> Result<Exec, String> {
                 slots[i].released = true;
             }
             "action_new" => {
-                let js = s(call, "json").ok_or("json")?;
-                let c = CString::new(js.replace('\0', "")).unwrap();
+                let js = s(call, "json").ok_or("json")?.replace('\0', "");
+                let c = CString::new(js.clone()).unwrap();
                 let a = tracked(ci, || unsafe { redirectionio_action_json_deserialize(c.as_ptr() as *mut c_char) }) as *mut Action;
                 let twin: Option<Box<Action>> = serde_json::from_str::<Action>(&js).ok().map(Box::new);
                 if a.is_null() != twin.is_none() {
@@ -999,7 +1006,7 @@ fn execute(case: &Value, fill: bool) -> Result<Exec, String> {
             "hmap_new" => {
                 // `http_headers_to_header_map` called directly (a pub fn of the library): Rust -> C conversion of headers
                 // that may contain NUL bytes or be empty
-                let input = pairs(call, "headers");
+                let input = pairs_raw(call, "headers");
                 let want = to_headers(&input);
                 let arg = want.clone();
                 let out = tracked(ci, || redirectionio::http::ffi::http_headers_to_header_map(arg)) as *const CHeaderMap;
@@ -1142,14 +1149,15 @@ fn execute(case: &Value, fill: bool) -> Result<Exec, String> {
                 };
                 let (r, twin): (*const Request, Option<Box<Request>>) = match via.as_str() {
                     "from_str" => {
-                        let url = s(call, "url").unwrap_or_default();
+                        let url = s(call, "url").unwrap_or_default().replace('\0', ""); // a C string cannot carry NUL: same text for the twin
                         let p = c(&url);
                         (tracked(ci, || unsafe { redirectionio_request_from_str(p) }), url.parse::<Request>().ok().map(Box::new))
                     }
                     "create" => {
                         let input = pairs(call, "headers");
                         let list = CList::new(&input);
-                        let (uri, host, scheme, method) = (s(call, "uri").unwrap_or_default(), s(call, "host").unwrap_or_default(), s(call, "scheme").unwrap_or_default(), s(call, "method").unwrap_or_default());
+                        let z = |k: &str| s(call, k).unwrap_or_default().replace('\0', "");
+                        let (uri, host, scheme, method) = (z("uri"), z("host"), z("scheme"), z("method"));
                         let (pu, ph, ps, pm) = (c(&uri), c(&host), c(&scheme), c(&method));
                         let r = tracked(ci, || unsafe { redirectionio_request_create(pu, ph, ps, pm, list.head()) });
                         let config = redirectionio::RouterConfig::default();
@@ -1160,7 +1168,7 @@ fn execute(case: &Value, fill: bool) -> Result<Exec, String> {
                         (r, Some(Box::new(t)))
                     }
                     _ => {
-                        let js = s(call, "json").unwrap_or_default();
+                        let js = s(call, "json").unwrap_or_default().replace('\0', "");
                         let p = c(&js);
                         (tracked(ci, || unsafe { redirectionio_request_json_deserialize(p as *mut c_char) }), serde_json::from_str::<Request>(&js).ok().map(Box::new))
                     }
